@@ -224,7 +224,7 @@ func runC17(c *fw.Ctx) {
 	hx.InstallTrace(base, tr)
 	r := c.Rand("progs")
 	module := "prog17.lisp"
-	for i := 0; i < c.PerShard(c.Pick(40000, 1200000)); i++ {
+	for i := 0; i < c.PerShard(c.Pick(600000, 15000000)); i++ {
 		text, fault, wrappers, mode, cont, fline, callSpan, callLine := c17Program(r)
 		c.Case(fmt.Sprintf("p-%d", i), text, func() {
 			ast, err := lisp.READ(text, types.NewCursorFile(module), nil)
